@@ -4,7 +4,9 @@
    state reachable by deliveries.  Statements only; proofs in Proofs/Restart.v, Proofs/ForkChoice.v, Proofs/ChainInv.v,
    Proofs/ChainRun.v, Proofs/ChainHeights.v, Proofs/ChainExamples.v. *)
 From Virel Require Import Lib.Config Lib.U64 Lib.AMap Model.Ledger Model.Node Spec.Chain Proofs.NodeBasics Proofs.ForkChoice
-  Proofs.Restart Proofs.ChainInv Proofs.ChainRun Proofs.ChainHeights Proofs.ChainExamples Gen.Params.
+  Proofs.Restart Proofs.ChainInv Proofs.ChainRun Proofs.ChainHeights Proofs.ChainExamples Gen.Params
+  Model.Emission Proofs.Emission Proofs.Conservation Proofs.Pointwise Proofs.Refine2 Proofs.Undo
+  Proofs.Replay1 Proofs.Replay2 Proofs.Replay3 Proofs.Replay4 Proofs.Replay5.
 Open Scope N_scope.
 
 (* every reachable state: the tip's block exists, no stored block is heavier, and the start-up reorganisation check
@@ -133,9 +135,27 @@ Theorem C10_stale_key_history :
 Proof. exact stale_key_history_example. Qed.
 Print Assumptions C10_stale_key_history.
 
-(* NOT PROVED (stated): the ledger of every reachable state equals the replay of its main chain, and a node restarted
-   from any commit prefix reaches the same final chain (the chain structure of every commit IS proved above; what is
-   missing is the ledger component and the equality of the final tips).  Both are checked on the implementation for the crash points of
+(* the ledger component: in every committed state (= every state reachable by deliveries) the ledger is the replay of the
+   main chain the store describes: the blocks filed under the heights 1 .. top_h apply one after the other to the genesis
+   ledger and the result agrees with the stored ledger on every account (as functions), the delegate table and the staked
+   total.  Premises and proof: Props/C03.v (C03_ledger_is_replay), Proofs/Replay1-5.v. *)
+Theorem C10_ledger_is_replay_of_main_chain : forall cfg genesis_addr team_key g n0 ops,
+  cfg_ok_emission cfg = true -> cfg_ok_feepos cfg = true ->
+  node0 cfg genesis_addr g = Ok n0 -> b_height g = 0 -> b_cd g = b_diff g ->
+  N.of_nat (length ops) < two64 - 1 ->
+  let n := run cfg genesis_addr team_key n0 ops in
+  Forall (tx_c cfg) (b_txs g) ->
+  (forall h b, get_block n h = Some b -> Forall (fun t => wf_tx cfg t /\ ver_ok t = true) (b_txs b)) ->
+  (forall bs, up (b_hash g) (blocks n) (b_hash g) bs ->
+     NoDup (bkeys g ++ flat_map bkeys bs) /\ c0 g + bnouts bs < two64 /\ c0 g + bntx bs < two64) ->
+  exists lr, apply_chain cfg genesis_addr (ldg n0) (lbs n (mchain n)) = Ok lr /\
+    same_accounts (ldg n) lr /\ dlgs (ldg n) = dlgs lr /\ staked (ldg n) = staked lr.
+Proof. exact ledger_is_replay_validated. Qed.
+Print Assumptions C10_ledger_is_replay_of_main_chain.
+
+(* NOT PROVED (stated): a node restarted from any commit prefix reaches the same final chain (the chain structure and
+   now the ledger component of every commit ARE proved above; what is missing is the equality of the final tips, which
+   depends on the fork choice between equally heavy tips).  It is checked on the implementation for the crash points of
    every generated history (Check/C10.v), together with LMDB's own atomicity, which no model here can exhibit. *)
 Definition C10_crash_recovers_full : Prop := forall cfg genesis_addr team_key n0 (ops : list (block * N)) k j,
   (j <= k)%nat ->
